@@ -10,17 +10,17 @@ add('C01', 'property-based differential testing against a reference evaluator + 
 
 
 
-add('C05', 'property-based testing: exactness of the CNF reduction decided row by row with an own DPLL against the reference evaluator',
+add('C05', 'property-based testing: exactness of the CNF reduction decided row by row with an own DPLL (z3 on bodies of 100+ gates, models re-checked) against the reference evaluator',
     'For generated circuits and output selections, CNF + every total input assignment is decided by an independent '
     'complete DPLL and compared both ways (SAT iff outputs true, unique extension, gate variables carry evaluated '
     'values, input i = variable i+1); the satisfiability query and its model are checked against the reference table.',
-    TRUST + ' UNSAT answers of the z3-backed pysat stand-in are trusted only for is_circuit_satisfiable.')
+    TRUST + ' UNSAT answers of the z3-backed pysat stand-in are trusted only for is_circuit_satisfiable; on generated bodies of 100-320 gates z3 decides the rows (its UNSAT answers are trusted there, its models are re-checked against the clauses).')
 add('C13', 'property-based differential testing of the miter against row-wise inequality of reference tables',
     'Generated circuit pairs (incl. single output, shared labels, outputs that are inputs / repeated); miter compared on '
     'all 2^n rows with the reference difference table by two evaluators and by the SAT query; operands snapshotted.',
     TRUST)
 add('C20', 'property-based testing with a validity predicate over recorded traversal event traces',
-    'Generated DAGs x start sets x DFS/BFS x directions x hook subsets: all order/coverage predicates of the statement '
+    'Generated DAGs (incl. chains of 300-6000 levels) x start sets x DFS/BFS x directions x hook subsets: all order/coverage predicates of the statement '
     'checked on the recorded trace against own reachability; cyclic bench texts decide the cycle check both ways.',
     TRUST)
 
@@ -50,7 +50,7 @@ add('C11', 'property-based round-trip testing (print -> parse) and reference-mod
 add('C16', 'property-based round-trip + rejection testing of the codec, bit I/O and dictionary I/O',
     'In-format circuits must round-trip to an isomorphic circuit in any storage order; out-of-format circuits must raise a '
     'codec error or round-trip; bit and dictionary writers/readers are checked as mutual inverses incl. overflow, '
-    'truncation (every prefix) and trailing data; in-memory database save/reopen.',
+    'truncation (every prefix) and trailing data; in-memory database save/reopen; finite parts: size sweep over every word size, user-made gate types named like built-in ones.',
     TRUST)
 
 add('C12', 'finite enumeration of small functions + property-based differential testing of three representations against definitions',
@@ -61,12 +61,12 @@ add('C12', 'finite enumeration of small functions + property-based differential 
 add('C19', 'property-based testing against reference bookkeeping / cofactor / independently synthesised equivalent replacements',
     'rename / replace_inputs / remove_gate on generated circuits with blocks checked against a reference renaming of the '
     'snapshot, the reference cofactor, and the users relation; replace_subcircuit driven with generated cut-bounded cones '
-    'and DNF / Reed-Muller replacements, valid requests must succeed, faulty ones raise a CircuitError or keep the function.',
+    'and DNF / Reed-Muller replacements, valid requests must succeed, faulty ones raise a CircuitError or keep the function; finite sweep of the four rewrites on chains of 120-5000 gates.',
     TRUST)
 add('C10', 'property-based testing against an own reference implementation of the documented composition',
     'Base + 1-3 attached circuits through all seven composition entry points, both directions, internal / repeated / '
     'partial connectors, names and prefixes; inputs, outputs, label set, per-output truth table, rejections, attached '
-    'circuit immutability, well-formedness and block extraction compared with the reference model.',
+    'circuit immutability, well-formedness and block extraction compared with the reference model; finite sweep of buses of 128-1025 connector pairs through every entry point.',
     TRUST + ' One attached INPUT paired with several base inputs is left out (documentation is silent).')
 add('C02', 'stateful property-based testing (Hypothesis rule-based state machine) with a structural invariant after every step',
     'Histories of all public mutators (19 rules, valid and deliberately invalid arguments, label re-use) on a pool of '
@@ -77,7 +77,7 @@ add('C02', 'stateful property-based testing (Hypothesis rule-based state machine
 
 add('C07', 'property-based testing against Python integer arithmetic (bit-sliced) on reference value vectors',
     'Ten summation entry points x operand counts / weight vectors / basis spellings / endianness / host circuits; exact sum '
-    'identity, distinct levels, returned labels exist, host discipline, basis and gate-count predicates.',
+    'identity, distinct levels, returned labels exist, host discipline, basis and gate-count predicates; finite sweep of the three generators over every operand count up to 40 and some up to 257.',
     TRUST + ' More than 14 input bits: 2048 seeded rows + corner rows only.')
 add('C08', 'finite width sweep + property-based testing against the integer product on reference value vectors',
     'All small width pairs x modes x endianness exhaustively over operand values, recursion-triggering widths on sampled + '
@@ -86,7 +86,7 @@ add('C08', 'finite width sweep + property-based testing against the integer prod
 add('C09', 'property-based testing against Python integer arithmetic decoded row by row from reference tables',
     'generate_* and add_* forms of sub / sub-with-compare / div-mod / sqrt / equality / plus-one / if-then-else / pairwise '
     'gadgets on all 2^n rows, incl. unequal widths, b=0, constants that do not fit, add_outputs / result_labels options and '
-    'shape-mismatch rejection; output-marking and host-discipline predicates.',
+    'shape-mismatch rejection; output-marking and host-discipline predicates; finite part on words of 63-513 bits (plus-one, subtraction) at the values where carries run through the whole word.',
     TRUST)
 
 add('C17', 'finite enumeration of the shipped databases and lookup tables + property-based lookup testing against an own normalisation model',
